@@ -187,6 +187,8 @@ pub const LENIENT: &[&str] = &[
     "\"\\xe9;\"", "\"\\x80;\\xff;\"", "\"caf\\xe9;\"", "#\\xe9", "#\\x80", "?\\xe9", "\"\\351\"",
     "0.0000001", "+1e-7", "#d5e-9", "0.00000123", "1e-7", "1.0e-7", "+1e21", "#d1e21",
     ".|b", ".|", ".'b", ".`b", ".,b", ".,@b", "..'", "+'a", "-`a", "a'", "a,", ".a'b", "...'", "-.'a", "+.,a", "1'x", "-'a", ".#a", ".[", ".;c",
+    "1.0e+INF", "-1.0e+INF", "0.0e+NaN", "1e+INF", "1.0e+inf", "inf", "-inf", "NaN", "+inf.0", "-nan.0",
+    "#x-10000000000000000000000000000000000000000000000000000000000000000000000000000000000000000000000000000000000000000000000000000000000000000000000000000000000000000000000000000000000000000000000000000000000000000000000000000000000000000000000000000000000000000", "#x10000000000000000000000000000000000000000000000000000000000000000000000000000000000000000000000000000000000000000000000000000000000000000000000000000000000000000000000000000000000000000000000000000000000000000000000000000000000000000000000000000000000000000", "#b-10000000000000000000000000000000000000000000000000000000000000000000000000000000000000000000000000000000000000000000000000000000000000000000000000000000000000000000000000000000000000000000000000000000000000000000000000000000000000000000000000000000000000000000000000000000000000000000000000000000000000000000000000000000000000000000000000000000000000000000000000000000000000000000000000000000000000000000000000000000000000000000000000000000000000000000000000000000000000000000000000000000000000000000000000000000000000000000000000000000000000000000000000000000000000000000000000000000000000000000000000000000000000000000000000000000000000000000000000000000000000000000000000000000000000000000000000000000000000000000000000000000000000000000000000000000000000000000000000000000000000000000000000000000000000000000000000000000000000000000000000000000000000000000000000000000000000000000000000000000000000000000000000000000000000000000000000000000000000000000000000000000000000000000000000000000000000000000000000000000000000000", "#o-200000000000000000000000000000000000000000000000000000000000000000000000000000000000000000000000000000000000000000000000000000000000000000000000000000000000000000000000000000000000000000000000000000000000000000000000000000000000000000000000000000000000000000000000000000000000000000000000000000000000000000000000000000000000000000000000000000",
     "-0", "+0", "-0.0", "00012", "1.50", "1.0e0", "1E3", "#e1", "#x-0", "#b-101", "#o777", "#d0012", "#xABCDEF", "18446744073709551616", "-9223372036854775809", "1e-400", "0.1e1",
 ];
 
